@@ -125,7 +125,7 @@ let progs_fn (c : case) : z -> dop list =
 let cfg =
   let s = try Sys.getenv "WIN_DEFECTS" with Not_found -> "" in
   let has k = List.mem k (String.split_on_char ',' s) in
-  { d_scroll_noclip = has "18"; d_focus_nolost = has "19"; d_key_twice = has "20"; d_flush_noclip = has "27"; d_notify_noout = has "28"; d_chain_norestore = has "29" }
+  { d_scroll_noclip = has "18"; d_focus_nolost = has "19"; d_key_twice = has "20"; d_flush_noclip = has "27"; d_notify_noout = has "28"; d_chain_norestore = has "29"; d_route_unsafe = has "30"; d_drag_stale = has "21" }
 
 (* ---------------------------------------------------------------- printing *)
 let buf = Buffer.create 4096
